@@ -172,7 +172,7 @@ def construct(eng, st, cls, args):
         if isinstance(src, BagV):
             raise Unsupported("Perm() of an unordered collection")
         seq = eng.as_seq(src, st)
-        return SeqV(seq.n, seq._at, "Perm", {k: v for k, v in seq.meta.items() if k in ("filter",)})
+        return SeqV(seq.n, seq._at, "Perm", {k: v for k, v in seq.meta.items() if k in ("filter", "ginv")})
     if cls in ("MeshPatt",):
         patt = args[0] if args else SeqV(0, lambda i: IntV(0), "Perm")
         sh = args[1] if len(args) > 1 else SetV(lambda v: z3.BoolVal(False), 2)
@@ -296,7 +296,8 @@ def b_enumerate(eng, st, a, kw):
         return TupV([TupV([IntV(start + k), item]) for k, item in enumerate(a[0].items)])
     seq = eng.as_seq(a[0], st)
     start = Z(a[1]) if len(a) > 1 else Z(kw.get("start", 0))
-    return SeqV(seq.n, lambda i: TupV([IntV(start + i), seq.at(i)]), "gen")
+    s0 = z3.simplify(start)
+    return SeqV(seq.n, lambda i: TupV([IntV(start + i), seq.at(i)]), "gen", {"enumerate_start": s0.as_long() if z3.is_int_value(s0) else None})
 
 
 def b_zip(eng, st, a, kw):
@@ -515,8 +516,11 @@ def b_frozenset(eng, st, a, kw):
 def b_sorted(eng, st, a, kw):
     """sorted(xs) of ints: a sorted rearrangement, stated with a ghost index bijection
     (sigma, tau two-sided inverse): out[i] = xs[sigma(i)], out non-decreasing."""
-    if kw:
-        raise Unsupported("sorted with key/reverse")
+    key = kw.get("key")
+    if "reverse" in kw or (key is not None and not (isinstance(key, ObjV) and key.cls == "itemgetter")):
+        raise Unsupported("sorted with reverse / a key other than operator.itemgetter")
+    if key is not None:
+        return stable_sort_by_item(eng, st, a[0], key.fields["k"])
     src = a[0]
     if isinstance(src, SetV):
         # TRUSTED axiom "sorted of a finite set of ints": a strictly increasing list with the same
@@ -545,6 +549,40 @@ def b_sorted(eng, st, a, kw):
     st.assume(z3.ForAll([i], z3.Implies(z3.And(i >= 0, i < n), z3.And(tau(i) >= 0, tau(i) < n, sg(tau(i)) == i)), patterns=[tau(i)]))
     st.assume(z3.ForAll([i, j], z3.Implies(z3.And(i >= 0, i < j, j < n), out(i) <= out(j)), patterns=[z3.MultiPattern(out(i), out(j))]))
     return ListV(n, lambda k: IntV(out(k)))
+
+
+def stable_sort_by_item(eng, st, src, k):
+    """sorted(seq_of_tuples, key=operator.itemgetter(k)): TRUSTED axiom 'sorted is a stable sort':
+    out[i] = seq[sigma(i)] for a bijection sigma of range(n) (ghost two-sided inverse tau), keys are
+    non-decreasing, and equal keys keep their original relative order."""
+    seq = eng.as_seq(src, st)
+    n = seq.n
+    sg = fresh_fun("sigma", z3.IntSort(), z3.IntSort())
+    tau = fresh_fun("tau", z3.IntSort(), z3.IntSort())
+    i, j = fresh("so"), fresh("sp")
+
+    def keyat(t):
+        el = seq.at(t)
+        if not isinstance(el, TupV):
+            raise Unsupported("itemgetter on non-tuples")
+        return Z(el.items[k])
+
+    st.assume(z3.ForAll([i], z3.Implies(z3.And(i >= 0, i < n), z3.And(sg(i) >= 0, sg(i) < n, tau(sg(i)) == i)), patterns=[sg(i)]))
+    st.assume(z3.ForAll([i], z3.Implies(z3.And(i >= 0, i < n), z3.And(tau(i) >= 0, tau(i) < n, sg(tau(i)) == i)), patterns=[tau(i)]))
+    st.assume(z3.ForAll([i, j], z3.Implies(z3.And(i >= 0, i < j, j < n),
+                                          z3.And(keyat(sg(i)) <= keyat(sg(j)), z3.Implies(keyat(sg(i)) == keyat(sg(j)), sg(i) < sg(j)))),
+                        patterns=[z3.MultiPattern(sg(i), sg(j))]))
+    out = ListV(n, lambda t: seq.at(sg(t)))
+    out.argsort = (sg, tau, seq)
+    eng.perm_registry.append((sg, tau, n))  # seed sigma / tau at the skolem constants of later goals
+    return out
+
+
+def b_itemgetter(eng, st, a, kw):
+    c = a[0].concrete() if isinstance(a[0], IntV) else a[0]
+    if not isinstance(c, int):
+        raise Unsupported("itemgetter with a symbolic index")
+    return ObjV("itemgetter", {"k": c})
 
 
 def b_int(eng, st, a, kw):
@@ -579,6 +617,8 @@ SIMPLE = {
     "abs": b_abs,
     "isinstance": b_isinstance,
     "sorted": b_sorted,
+    "operator.itemgetter": b_itemgetter,
+    "itemgetter": b_itemgetter,
     "int": b_int,
     "bool": b_bool,
 }
